@@ -245,6 +245,9 @@ def _callables(desc):
     return (lambda p: m(p)), (lambda x: np.asarray(m_ref(np.array([x], dtype="f8"))).reshape(-1)[0])
 
 
+ACCEPTED_FORMS = {}
+
+
 def run_case(ck, desc):
     if desc.get("threads"):
         # array and scalar calls of the same correlations from four threads at once (each its own fluid)
@@ -362,11 +365,28 @@ def run_case(ck, desc):
                 ck.count(f"shape_form_not_accepted.{label}.{type(e).__name__}")
                 continue
             ck.count(f"shape_form_accepted.{label}")
+            ACCEPTED_FORMS.setdefault(desc["fn"], set()).add(label)
             want = np.asarray(refs[: arr.size], dtype=float).reshape(arr.shape)
             if o2.shape != arr.shape:
                 ck.violation("same-shape", {"fn": desc["fn"], "form": label, "got": list(o2.shape), "want": list(arr.shape)}, desc)
             elif not np.all(np.abs(o2.astype(float) - want) <= 256 * eps * np.abs(want) + 1e-300):
                 ck.violation("elementwise", {"fn": desc["fn"], "form": label, "max_rel": float(np.max(np.abs(o2.astype(float) - want) / np.abs(want)))}, desc)
+        # zero-size arrays of a dimensionality the correlation ACCEPTS (a (nt, nx) history sliced by a mask
+        # with no hit, grid[:, :0]): floating result of the input's shape. Nothing is claimed where arrays of
+        # that dimensionality are not accepted at all
+        nd_ok = {np.ndim(a_) for l_, a_ in forms if l_ in ACCEPTED_FORMS.get(desc["fn"], ())}
+        for shp in ((0, 3), (2, 0), (4, 0, 2)):
+            if len(shp) not in nd_ok and not (len(shp) == 3 and 2 in nd_ok):
+                continue
+            z = np.empty(shp, dtype=view.dtype)
+            try:
+                oz = np.asarray(arr_call(z))
+            except Exception as e:  # noqa: BLE001
+                ck.count(f"zero_size_form_not_accepted.{len(shp)}-d.{type(e).__name__}")
+                continue
+            ck.count(f"zero_size_forms_checked.{len(shp)}-d")
+            if oz.shape != shp or oz.dtype.kind != "f":
+                ck.violation("same-shape", {"fn": desc["fn"], "form": f"zero-size {len(shp)}-d", "got": list(oz.shape), "want": list(shp), "dtype": str(oz.dtype)}, desc)
     # second call on the SAME buffer after the caller has overwritten its contents in place
     if view.shape[0] >= 2 and view.dtype.kind == "f" and not read_only:
         arr_call(view)  # (the call right before the edit sees this very array object - nothing in between)
